@@ -394,5 +394,8 @@ RULES = [
     ("C09.tables", lambda c, r: lfht.rule_mm(c, r, "C09.tables")),
     ("C09.newparams", lambda c, r: lfht.rule_newparams(c, r, "C09.newparams")),   # bucket memory of a level is allocated (again) before the level is published   # a shrink unlinks the level's bucket nodes before freeing it
     ("C09.wq", lambda c, r: __import__("sa.rules.wq", fromlist=["x"]).rule_workqueue(c, r, "C09.wq")),   # the work queue that executes resizes / deferred destroys
+    ("C09.partition_thread", lambda c, r: __import__("sa.rules.lfht2", fromlist=["x"]).rule_partition_thread(c, r, "C09.partition_thread")),
+    ("C09.levels", lambda c, r: __import__("sa.rules.lfht2", fromlist=["x"]).rule_levels(c, r, "C09.levels")),
+    ("C09.dispatch", lambda c, r: __import__("sa.rules.lfht2", fromlist=["x"]).rule_dispatch(c, r, "C09.dispatch")),
 ]
 FLOORS = {"C09.pow2": 4}
